@@ -47,6 +47,16 @@ def scripts_for(tier, rng):
                 out.append(dict(id="v%05d" % k, origin="unwatch-failure", init_paths=init, fail_unwatch=[p],
                                 steps=[dict(at="idle", k=0, set_paths=tgt), dict(at="idle", k=0, set_paths=init)]))
                 k += 1
+    # several paths failing in one go against an error channel that holds one error: each failure is
+    # still reported, once (the worker waits for room)
+    for init in S:
+        for tgt in (["b", "c"], ["a", "b", "c"][:3]):
+            for cap in (1, 2):
+                out.append(dict(id="v%05d" % k, origin="watch-failures-small-channel", init_paths=init, err_cap=cap,
+                                fail_watch=["b", "c"], fail_unwatch=["b", "c"],
+                                steps=[dict(at="idle", k=0, set_paths=tgt), dict(at="idle", k=0, set_paths=[]),
+                                       dict(at="idle", k=0, set_paths=tgt)]))
+                k += 1
     n = 600 if tier == "quick" else 8000
     for _ in range(n):
         steps = []
@@ -61,12 +71,29 @@ def scripts_for(tier, rng):
             s["fail_watch"] = [rng.choice(["b", "c"])]
         if rng.random() < 0.2:
             s["fail_unwatch"] = [rng.choice(["b", "c"])]
+        if rng.random() < 0.15:
+            s["fail_watch"], s["err_cap"] = ["b", "c"], 1
         out.append(s)
         k += 1
     if tier == "quick":
         head = [s for s in out if s["origin"] != "random"]
         rest = [s for s in out if s["origin"] == "random"]
         out = rng.sample(head, min(len(head), 1500)) + rest
+    return out
+
+
+def failure_scripts():
+    """C15 (registration clause): failing watch / unwatch calls, one or several in one go, against an error
+    channel that holds one or two errors: every failure reaches the error consumer exactly once"""
+    out, k = [], 0
+    for init in sets(2):
+        for tgt in (["b"], ["b", "c"], ["a", "b", "c"]):
+            for cap in (1, 2, 64):
+                out.append(dict(id="w%05d" % k, origin="registration-failures", init_paths=init, err_cap=cap,
+                                fail_watch=["b", "c"], fail_unwatch=["b", "c"],
+                                steps=[dict(at="idle", k=0, set_paths=tgt), dict(at="idle", k=0, set_paths=[]),
+                                       dict(at="idle", k=0, set_paths=tgt), dict(at="idle", k=0, other=True)]))
+                k += 1
     return out
 
 
